@@ -229,7 +229,7 @@ class CdsShortTimestamp(CcsdsTimeProvider):
         instance._unix_seconds = dt.timestamp()
         full_unix_secs = int(math.floor(instance._unix_seconds))
         subsec_millis = int((instance._unix_seconds - full_unix_secs) * 1000)
-        unix_days = int(full_unix_secs / SECONDS_PER_DAY)
+        unix_days = full_unix_secs // SECONDS_PER_DAY
         secs_of_day = full_unix_secs % SECONDS_PER_DAY
         instance._ms_of_day = secs_of_day * 1000 + subsec_millis
         instance._ccsds_days = convert_unix_days_to_ccsds_days(unix_days)
